@@ -293,6 +293,27 @@ func craftedInputs() []epInput {
 		f := append(append([]byte{}, ftypCrx...), box("free", make([]byte, pad))...)
 		f = append(f, 0, 0, 0, 1, 'm', 'd', 'a', 't', 0, 0, 0, 0, 0, 0, 0, 48)
 		add("bmff-largesize-header-at-window-end", append(f, make([]byte, 64)...))
+		// a preview whose PRVW header declares 64 MiB (resp. 512 KiB) of JPEG in a file of about two hundred bytes, with dimensions that
+		// make the size look plausible (8000 x 8000) or not (16 x 16, 0 x 0): no field of the header may size an allocation
+		for _, dim := range [][2]uint16{{8000, 8000}, {16, 16}, {0, 0}, {65535, 65535}} {
+			for _, declared := range []uint32{64 << 20, 512 << 10, 0x7fffffff} {
+				u32 := func(v uint32) []byte { return binary.BigEndian.AppendUint32(nil, v) }
+				f := append(append([]byte{}, u32(16)...), []byte("ftypcrx \x00\x00\x00\x01")...)
+				f = append(append(f, u32(8)...), []byte("free")...)
+				f = append(append(f, u32(8)...), []byte("free")...)
+				f = append(append(f, u32(8+16+8+24+declared)...), []byte("uuid")...)
+				f = append(f, 0xea, 0xf4, 0x2b, 0x5e, 0x1c, 0x98, 0x4b, 0x88, 0xb9, 0xfb, 0xb7, 0xdc, 0x40, 0x6e, 0x4d, 0x16)
+				f = append(f, 0, 0, 0, 0, 0, 0, 0, 1)
+				f = append(append(f, u32(24+declared)...), []byte("PRVW")...)
+				f = append(f, 0, 0, 0, 0, 0, 1)
+				f = binary.BigEndian.AppendUint16(f, dim[0])
+				f = binary.BigEndian.AppendUint16(f, dim[1])
+				f = append(f, 0, 1)
+				f = append(f, u32(declared)...)
+				f = append(append(f, 0xff, 0xd8), bytes.Repeat([]byte{0x55}, 98)...)
+				add(fmt.Sprintf("cr3-prvw-declares-%d-dims-%dx%d-truncated", declared, dim[0], dim[1]), f)
+			}
+		}
 		// size fields far beyond the file: meta and iloc each declare 64 MiB in a file of about a hundred bytes
 		big := func(t string, declared uint32, p []byte) []byte {
 			return append(append(binary.BigEndian.AppendUint32(nil, declared), []byte(t)...), p...)
